@@ -286,7 +286,7 @@ class C13(Check):
                     # terminals that choices() lists but accepts() does not are exactly the LALR-merged lookaheads: a token of such a type is
                     # rejected only AFTER the reductions it is a lookahead of (the fault that lands mid-reduction-chain) -- preferred
                     try:
-                        late = sorted(t for t in ip.choices() if t.isupper() and t != '$END' and t not in acc and t in terms)
+                        late = sorted(t for t in ip.choices() if t != '$END' and t not in acc and t in terms)
                     except Exception:
                         late = []
                     if late and arg % 10 < 7:
@@ -630,7 +630,14 @@ class C13(Check):
                                            'ops': [[0, 'immfeed', 0], [59203, 'feed', 4052], [65003, 'feed', 0], [29267, 'feed', 0], [4868, 'feed', 57962],
                                                    [44899, 'feed', 0], [20588, 'feed', 0], [2751, 'feed', 0]]}),
                 ('copy-exhaust-bystander', {'config': 'calc/basic', 'start': 'start', 'text': '1+2*3;', 'root': 'interactive',
-                                            'ops': [[0, 'copy', 0], [1, 'exhaust', 0], [0, 'step', 0], [0, 'resume', 0]]})]
+                                            'ops': [[0, 'copy', 0], [1, 'exhaust', 0], [0, 'step', 0], [0, 'resume', 0]]})] + self._fixed_from_files()
+
+    def _fixed_from_files(self):
+        import json, glob, os
+        out = []
+        for path in sorted(glob.glob(os.path.join(core.VERIF, 'replays', 'fixed', 'C13-*.json'))):
+            out.append((os.path.basename(path)[:-5], json.load(open(path))['plan']))
+        return out
 
 
 def _IMM():
